@@ -69,10 +69,10 @@ def body(ctx):
     # a listing that takes longer than read_timeout_s as a whole although every packet is prompt, with a packet of another stream (a
     # streaming generator the caller keeps open) arriving in the middle of it
     for k3, (tick, rt) in enumerate([(0.05, 1.0), (0.2, 0.5)]):
-        ents = [[(b'e%03d' % j).hex(), 1, 2, 3] for j in range(120)]
+        ents = [[(b'e%03d' % j).hex(), 1, 2, 3] for j in range(400)]
         spec = dict(seed=ctx.seed + 78 + k3, maxdata=4096, rid='plus', frag='whole', tick=tick,
-                    ops=[dict(api='streaming_shell', decode=False, cmd='logcat', chunks=[b'l1;'.hex(), b'l2;'.hex(), b'l3;'.hex()], take=1, hold='log', read_timeout_s=rt),
-                         dict(api='list', path='/slow', entries=ents, cuts=[400 * j_ for j_ in range(1, 12)], read_timeout_s=rt),
+                    ops=[dict(api='streaming_shell', decode=False, cmd='logcat', chunks=[b'l1;'.hex(), b'l2;'.hex(), b'l3;'.hex()], take=1, hold='log', freeze=True, read_timeout_s=rt),
+                         dict(api='list', path='/slow', entries=ents, cuts=[400 * j_ for j_ in range(1, 30)], read_timeout_s=rt, thaw_after=12),
                          dict(api='stat', path='/slowstat', st=[1, 2, 3], read_timeout_s=rt),
                          dict(api='resume', gen='log')])
         for mode in ('sync', 'async'):
